@@ -5,6 +5,10 @@
       | (raise ...)
    (paths-locs ...same...) -> the ghost locations and kinds, for diagnostics
    (search-term <expr>) -> (ok none) | (ok (some (inv METHOD attr term))) | (raise ...)
+   (paths-print <doc> <mtable> (<expr> ...) dot|slash (v k a ka va x) (nofile noexpression noyamlpath values noescape)
+                <file> i<docindex> <lit table> <re table> <value table>)
+     -> (ok ((s<line> ...) true|false)) | (raise ...)      PathsPrint.process_doc
+   value table = ((s<path text> (ok s<text>) | ype | (crash Name)) ...)
    mtable = ((i<oid> (i<pos> ...) (<node> ...)) ...) *)
 open Model
 open Sexp
@@ -71,6 +75,32 @@ let run_search args (f : hit -> t) : t =
      | OutOfFuel -> L [A "outoffuel"])
   | _ -> failwith "paths: bad arguments"
 
+let flags_of_sexp = function
+  | L [a; b; c; d; e] ->
+    { pf_nofile = bool_of_sym a; pf_noexpression = bool_of_sym b; pf_noyamlpath = bool_of_sym c;
+      pf_values = bool_of_sym d; pf_noescape = bool_of_sym e }
+  | x -> failwith ("bad flags " ^ to_string x)
+
+let val_table_of_sexp = function
+  | L items ->
+    List.map (function
+        | L [k; L [A "ok"; v]] -> (str_atom k, Ok (str_atom v))
+        | L [k; A "ype"] -> (str_atom k, Raise (YPE Generic))
+        | L [k; L [A "crash"; A n]] -> (str_atom k, Raise (PyCrash (crash_of_name n)))
+        | y -> failwith ("bad value entry " ^ to_string y)) items
+  | x -> failwith ("bad value table " ^ to_string x)
+
+let run_print = function
+  | [d; mtb; L exprs; sp; op; fl; file; idx; lt; rt; vt] ->
+    let lit = lit_of_table (lit_table_of_sexp lt) in
+    let re = re_of_table (re_table_of_sexp rt) in
+    let vtab = val_table_of_sexp vt in
+    let value_text t = match List.assoc_opt t vtab with Some r -> r | None -> Raise OracleMiss in
+    outcome_sexp (fun (lines, bad) -> L [L (List.map s lines); bs bad])
+      (process_doc lit re value_text (mtable_of_sexp mtb) (sep_of sp) (opts_of_sexp op) (node_of_sexp d)
+         (flags_of_sexp fl) (List.map str_atom exprs) (str_atom file) (z_of_int (int_atom idx)))
+  | _ -> failwith "paths-print: bad arguments"
+
 let handle (cmd : string) (args : t list) : t option =
   match cmd with
   | "paths" ->
@@ -79,6 +109,7 @@ let handle (cmd : string) (args : t list) : t option =
   | "paths-locs" ->
     Some (run_search args (fun h ->
         L [s h.h_path; L (List.map sexp_of_ref h.h_loc); A (kind_name h.h_kind)]))
+  | "paths-print" -> Some (run_print args)
   | "search-term" ->
     (match args with
      | [expr] -> Some (outcome_sexp (sexp_of_option terms_sexp) (get_search_term (str_atom expr)))
